@@ -1,8 +1,8 @@
 SPECIFICATION GenSpec
 CONSTANTS
-  Sessions = {"M1"}
-  Legacy = {}
-  InitOn = {"M1"}
+  Sessions = {"L1", "M1"}
+  Legacy = {"L1"}
+  InitOn = {"L1"}
   InitSub = {}
   Kinds = {"tools"}
   NotifOf <- NotifStd
@@ -10,20 +10,20 @@ CONSTANTS
   Want <- WantAll
   CapOff = {}
   CapMode <- ModeInferred
-  InitSize <- Size3
-  MaxSize = 3
-  Dirs = {"mod"}
+  InitSize <- Size1
+  MaxSize = 2
+  Dirs = {"add", "rm", "clear"}
   SendGate = "configured"
-  TTLPos = TRUE
+  TTLPos = FALSE
   D = 2
-  MaxTime = 4
-  MaxChanges = 1
+  MaxTime = 6
+  MaxChanges = 3
   MaxUpdates = 0
-  MaxCalls = 2
-  NPages = 2
+  MaxCalls = 0
+  NPages = 1
   ListenOwns = TRUE
   ResubRace = TRUE
-  GenCheck = FALSE
+  GenCheck = TRUE
   ColdBump = TRUE
   ModernUnsub = FALSE
   ForeignUnsub = FALSE
@@ -31,13 +31,13 @@ CONSTANTS
   MaxListens = 0
   FailUndo = TRUE
   Stepwise = TRUE
-  Gates = TRUE
-  GateNames = {"put"}
+  Gates = FALSE
+  GateNames = {"inv", "usr", "put"}
   ClientFirst = FALSE
   MinSteps = 1
-  MaxSteps = 9
+  MaxSteps = 6
   Bias = FALSE
   Script <- ScriptNone
   GenOps = {"change", "tchange", "updated", "connect", "close", "subscribe", "unsubscribe", "list", "tick", "hold", "release"}
-INVARIANTS LeadFresh
+INVARIANTS Export NeverLost OnlyEntitled NoneWhenDisabled UpdatedExactlySubscribers Fresh ForgottenOnClose
 CHECK_DEADLOCK FALSE
